@@ -123,3 +123,17 @@ for w, nm in ((12, 'IntArray'), (13, 'FloatArray'), (14, 'DoubleArray'), (15, 'S
         QM(('C06', 'C07', 'C08'), 'create.%s.CNT%d' % (nm, cnt), 'harness/create.c', defs=['-DCNT=%d' % cnt, '-DWHICH=%d' % w], unwind=cnt + 3,
            unwindset=ML(cnt + 4, 70) + ['cJSON_Delete:1', 'cJSON_Delete.0:%d' % (cnt + 2), 'vf_memcpy.0:66', 'strlen.0:6', 'strcmp.0:6'], cost=cnt * 6,
            tiers=('quick', 'thorough') if cnt == (2 if w == 15 else 3) else ('thorough',), timeout=1200, functions=['cJSON_Create' + nm, 'cJSON_CreateNumber', 'cJSON_CreateString', 'cJSON_CreateArray', 'suffix_object', 'cJSON_Delete'])
+for td, tk in ((1, 2), (1, 3), (2, 2), (2, 3)):
+    QM(('C07', 'C01'), 'delete.D%dK%d' % (td, tk), 'harness/delete.c', defs=['-DTD=%d' % td, '-DTK=%d' % tk], unwind=tk + 2,
+       unwindset=ML(tk * tk + tk + 3, 30) + ['cJSON_Delete:%d' % td, 'cJSON_Delete.0:%d' % (tk + 2), 'vf_build_rec:%d' % (td + 1), 'vf_release:%d' % (td + 1), 'kept_blocks:%d' % (td + 1), 'vf_tree_assume.0:%d' % (tk * tk + tk + 3), 'memcmp.0:3'],
+       cost=td * tk * 8, tiers=('quick', 'thorough') if (td, tk) != (2, 3) else ('thorough',), functions=['cJSON_Delete'], timeout=1200)
+DUPFN = ['cJSON_Duplicate', 'cJSON_Duplicate_rec', 'cJSON_strdup', 'cJSON_New_Item', 'cJSON_Delete']
+for td, tk in ((1, 2), (1, 3)):
+    nn = 1 + tk + (tk * tk if td == 2 else 0)
+    QM(('C11', 'C08', 'C07'), 'dup.D%dK%d' % (td, tk), 'harness/dup.c', defs=['-DTD=%d' % td, '-DTK=%d' % tk] + (['-DNODELETE'] if td == 2 else []), unwind=tk + 2,
+       unwindset=ML(nn + 2, 30) + ['cJSON_Delete:%d' % td, 'cJSON_Delete.0:%d' % (tk + 2), 'cJSON_Duplicate_rec:%d' % (td + 1), 'check_copy:%d' % (td + 1), 'vf_build_rec:%d' % (td + 1), 'vf_tree_assume.0:%d' % (nn + 2), 'memcmp.0:66', 'vf_memcpy.0:66', 'strlen.0:4', 'strcmp.0:4'],
+       cost=td * tk * 10, tiers=('quick', 'thorough') if (td, tk) != (2, 2) else ('quick', 'thorough'), functions=DUPFN, timeout=1500)
+for K in (2, 3, 4):
+    QM(('C11', 'C08'), 'dupunit.K%d' % K, 'harness/dup_unit.c', defs=['-DK=%d' % K], unwind=K + 3, stub=['cJSON_Duplicate_rec'],
+       unwindset=ML(K + 3, 40) + ['cJSON_Delete:1', 'cJSON_Delete.0:%d' % (K + 2), 'memcmp.0:66', 'vf_memcpy.0:66', 'strlen.0:4', 'strcmp.0:4'],
+       cost=K * 4, tiers=('quick', 'thorough') if K == 3 else ('thorough',), functions=DUPFN)
